@@ -2,7 +2,7 @@
 From Coq Require Import List ZArith Bool.
 Import ListNotations.
 From GS Require Import Num NumZ EventLoop Kernel Sim.
-From GS.Proofs Require Import Aux EventLoopP KernelP SimP.
+From GS.Proofs Require Import Aux EventLoopP KernelP SimP DriveP SimDriveP.
 
 (** Every state reachable from a fresh event loop by any history of API calls keeps all
     queued events at or after the clock (and their sequence numbers distinct). *)
@@ -45,6 +45,28 @@ Proof.
   destruct (k_run A hk c fuel s) as [[s' items] fin]. destruct Hp as (_ & H1 & H2 & _). split; assumption.
 Qed.
 
+(** The same under ANY driving: every interleaving of step_simulation() calls and code outside the
+    event loop that changes handler state and schedules events (every hooks, every such code). *)
+Theorem C01_any_driving_exec_times :
+  forall (F : Type) (A : ArithOps F), OrderLaws A -> forall (P H T : Type) (hk : hooks F P H T) (c : kcfg F)
+         (ops : list (kdrv F P H T)) (s : kstate F P H),
+    k_inv A s ->
+    let '(s', items) := k_drive A hk c ops s in
+    sorted_from (fleb A) (el_now (k_el s)) (exec_ts items) /\
+    el_now (k_el s') = last (exec_ts items) (el_now (k_el s)).
+Proof.
+  intros F A OL P H T hk c ops s Hinv. pose proof (k_drive_props A OL hk c ops s Hinv) as Hp.
+  destruct (k_drive A hk c ops s) as [s' items]. destruct Hp as (_ & H1 & H2 & _). split; assumption.
+Qed.
+
+(** ... of which the simulator driven step by step with requests made from outside the callbacks
+    (before the first step, between steps) is an instance. *)
+Theorem C01_external_requests_are_driving :
+  forall (F : Type) (A : ArithOps F) (PS : Type) (cfg : scfg F) (react : nat -> PS -> F -> cb F -> PS * list (action F))
+         (c : kcfg F) (ops : list (drv_op F)) (s : kstate F (payload F) (sstate F PS)),
+    sim_drive A cfg react c ops s = k_drive A (sim_hooks A cfg react) c (map (to_kdrv A cfg) ops) s.
+Proof. intros. apply sim_drive_is_k_drive. Qed.
+
 (** The callback produced by executing an event reports the event's own time to the protocol,
     on the node the event names, with the payload the event captured — for every protocol. *)
 Theorem C01_callback_sees_due_time :
@@ -82,5 +104,7 @@ Print Assumptions C01_pops_monotone.
 Print Assumptions C01_clock_monotone.
 Print Assumptions C01_past_refused.
 Print Assumptions C01_kernel_exec_times.
+Print Assumptions C01_any_driving_exec_times.
+Print Assumptions C01_external_requests_are_driving.
 Print Assumptions C01_callback_sees_due_time.
 Print Assumptions C01_requests_not_in_past.
